@@ -88,6 +88,8 @@ def to_real(world: World, d):
         return {world.obj(i) for i in d["members"]}
     if kind == "node":
         return world.obj(d["index"])
+    if kind == "seq":
+        return [world.obj(i) for i in d["items"]]
     if kind == "pairs":
         return [(world.obj(i), world.obj(j)) for i, j in d["pairs"]]
     if kind == "bool":
@@ -115,6 +117,8 @@ def describe(world: World, d):
         return sorted(nm(i) for i in d["members"])
     if kind == "node":
         return nm(d["index"])
+    if kind == "seq":
+        return [nm(i) for i in d["items"]]
     if kind == "pairs":
         return [[nm(i), nm(j)] for i, j in d["pairs"]]
     return d.get("value")
@@ -164,6 +168,11 @@ def pin_inputs(L: Logic, probes, data, world: World):
             hyps += _tab1(L, p.syms[0], set(d["members"]))
         elif p.kind == "node":
             hyps.append(p.syms[0] == U[d["index"]])
+        elif p.kind == "seq":
+            M, lt = p.syms
+            items = d["items"]
+            hyps += _tab1(L, M, set(items))
+            hyps += _tab2(L, lt, [(items[i], items[j]) for i in range(len(items)) for j in range(i + 1, len(items))])
         elif p.kind == "pairs":
             hyps += _tab2(L, p.syms[0], d["pairs"])
         elif p.kind == "bool":
